@@ -91,11 +91,10 @@ Proof.
   split; [|reflexivity].
   lazymatch goal with |- ?x = _ => subst x end.
   lazymatch goal with |- fst ?x = _ => subst x end.
-  f_equal. apply for_range_iter; [|f_equal].
-  - intros i s. symmetry. apply surjective_pairing.
-  - reflexivity.
-  - lazymatch goal with |- ?x = _ => subst x end.
-    lazymatch goal with |- snd ?x = _ => subst x end. unfold ttsgn0_3d. destruct grad; reflexivity.
+  f_equal. rewrite (for_range_iter (pass3d grad)) by (intros ? ?; symmetry; apply surjective_pairing).
+  apply (f_equal (Nat.iter _ _)). apply f_equal2; [reflexivity|].
+  lazymatch goal with |- ?x = _ => subst x end.
+  lazymatch goal with |- snd ?x = _ => subst x end. unfold ttsgn0_3d. destruct grad; reflexivity.
 Qed.
 
 Lemma fteik3d_char nsweep grad :
